@@ -460,6 +460,8 @@ pub fn c01_writer_thread_append(cfg: &Value) {
 /// 41 entries were written and flushed.
 pub fn c04_request_during_flush(cfg: &Value) {
     let burst = cfg["burst"].as_u64().unwrap_or(40) as usize;
+    // (capacity below the burst: the burst overflows the queue, displacing its own oldest entries)
+    let cap = cfg["cap"].as_u64().unwrap_or(128) as usize;
     if let Some(k) = cfg["jump_k"].as_u64() {
         vtime::jump_at_read(k, Duration::from_secs(2));
     }
@@ -484,7 +486,7 @@ pub fn c04_request_during_flush(cfg: &Value) {
             }
         }));
     }
-    let (q, handle) = build(false, 128, stream);
+    let (q, handle) = build(false, cap, stream);
     q.append(Tag { p: 0, seq: 0 });
     // only from now on may the flush callback fire (the periodic flush before would be too early)
     let for_stream = q.clone();
@@ -496,7 +498,9 @@ pub fn c04_request_during_flush(cfg: &Value) {
         before.extend((0..burst).map(|si| Tag { p: 1, seq: si as u8 }));
         let ((), snap) = wait_with_snapshot(r2, &log);
         mc::outcome(format!("r2 completed with {} entries written", tags_in(&snap).len()));
-        check_flush_snapshot("request-during-flush", &before, &snap, |_| false);
+        // an entry of the burst was displaced iff at least `cap` newer ones followed it
+        // (main's own first entry too, if the burst found it still queued: at least `cap` newer)
+        check_flush_snapshot("request-during-flush", &before, &snap, |t| (t.p == 1 && burst - 1 - (t.seq as usize) >= cap) || (t.p == 0 && burst >= cap));
     } else {
         mc::outcome("the stream was not flushed for r1 while the slot was set".into());
     }
